@@ -305,9 +305,10 @@ Proof.
         pose proof (Permutation_NoDup P2 ND) as ND2. inversion ND2; assumption.
       * intros y I. apply LE. apply in_app_or in I. apply in_or_app. destruct I; auto.
   - (* a handler has returned *)
-    rename H1 into SS. rename H3 into Eo. rename H4 into Ro. rename H5 into Rx. rename H7 into HQ.
+    rename H2 into SS. rename H4 into Eo. rename H5 into Ro. rename H6 into Rx. rename H8 into HQ.
+    rename H1 into L. pose proof (lite_view _ _ L) as V. unfold view in V. inversion V as [[V1 V2 V3 V4 V5 V6 V7]].
     assert (F2 : Forall2 slocw (sc_strms c) (strms_put (sc_strms c) x)) by (eapply put_slocw; eassumption).
-    destruct H. constructor; rewrite ?sc_strms_put; sc_rw; try assumption.
+    destruct H. constructor; rewrite ?sc_strms_put; sc_rw; rewrite ?V1, ?V2, ?V3, ?V4, ?V5, ?V6, ?V7; try assumption.
     + rewrite (slocw_count_hdr _ _ F2). assumption.
     + intro Hd. eapply slocw_Forall_orig; eauto.
     + rewrite (slocw_count_hdr _ _ F2), (slocw_length _ _ F2). assumption.
